@@ -494,8 +494,60 @@ def gen_fix():
     write("Fix.lean", text)
 
 
+def gen_filter():
+    lib = strip_comments(open(os.path.join(REPO, "src/lib_priv.rs")).read())
+    fs = strip_comments(open(os.path.join(REPO, "src/full_sync/mod.rs")).read())
+    smod = strip_comments(open(os.path.join(REPO, "src/server/mod.rs")).read())
+    cmod = strip_comments(open(os.path.join(REPO, "src/client/mod.rs")).read())
+    strack = strip_comments(open(os.path.join(REPO, "src/server/track.rs")).read())
+    ctrack = strip_comments(open(os.path.join(REPO, "src/client/track.rs")).read())
+    nospace = lambda x: re.sub(r"\s+", "", x)
+    # sync_detect / sync_skinned_mesh query filters
+    def hdr(name):
+        h = lib[lib.index("fn " + name):]
+        return nospace(h[: h.index("{")])
+    d1, d2 = hdr("sync_detect"), hdr("sync_skinned_mesh")
+    detect_ok = all(x in d1 for x in ("With<SyncEntity>", "Without<SyncExclude<T>>", "Changed<T>")) and \
+        all(x in d2 for x in ("With<SyncEntity>", "Without<SyncExclude<SkinnedMesh>>", "Changed<SkinnedMesh>"))
+    # the detectors are only added inside sync_component
+    adds = [m.start() for m in re.finditer(r"add_systems\(\s*Update\s*,\s*sync_(detect|skinned_mesh)", lib)]
+    sc = lib.index("fn sync_component")
+    sc_end = lib.index("fn sync_materials")
+    via = len(adds) == 2 and all(sc < a < sc_end for a in adds) and "registered_componets_for_sync.insert(c_id)" in nospace(lib[sc:sc_end])
+    # reaction systems gated by their switch, in both plugins
+    gates = {"react_on_changed_materials": "sync_material_enabled", "react_on_changed_images": "sync_material_enabled",
+             "react_on_changed_meshes": "sync_mesh_enabled", "react_on_changed_audios": "sync_audio_enabled"}
+    gated = all(("%s.run_if(%s)" % (k, v)) in nospace(m) for m in (smod, cmod) for k, v in gates.items())
+    # … and none of them is added ungated elsewhere
+    gated = gated and all(len(re.findall(r"\b%s\b(?!\s*\.run_if)" % k, re.sub(r"use[^;]*;", "", m))) == 0 for m in (smod, cmod) for k in gates)
+    # every reaction fn skips non-uuid ids
+    skips = True
+    for src in (strack, ctrack):
+        for k in gates:
+            body = nospace(fn_body(src, k))
+            if "letAssetId::Uuid{uuid:id}=idelse{continue;}" not in body:
+                skips = False
+    # snapshot
+    cec = nospace(fn_body(fs, "check_entity_components"))
+    snap_reg = "track.registered_componets_for_sync.contains(&c_id)" in cec
+    snap_excl = "ifarch.contains(*c_exclude_id){continue;}" in cec and "sync_exclude_cid_of_component_cid" in cec
+    snap_gate = all(("iftrack.%s{" % sw) in nospace(fn_body(fs, fn)) for fn, sw in
+                    (("check_materials", "sync_materials"), ("check_images", "sync_materials"), ("check_meshes", "sync_meshes"), ("check_audios", "sync_audios")))
+    snap_uuid = all("letAssetId::Uuid{uuid:id}=idelse{continue;}" in nospace(fn_body(fs, fn))
+                    for fn in ("check_materials", "check_images", "check_meshes", "check_audios"))
+    created = all("Query<Entity,Added<SyncMark>>" in nospace(src[src.index("fn entity_created_on_"):].split("{")[0]) for src in (strack, ctrack))
+    text = "/-! GENERATED by /verif/translate/translate.py from src/lib_priv.rs, src/full_sync/mod.rs, src/{server,client}/{mod,track}.rs — do not edit. -/\nnamespace BevySync\nnamespace Generated\n\n"
+    for name, val in (("detectFilterComplete", detect_ok), ("detectOnlyViaSyncComponent", via), ("reactGatedBySwitch", gated),
+                      ("reactSkipsIndexIds", skips), ("snapshotChecksRegistration", snap_reg), ("snapshotChecksExclusion", snap_excl),
+                      ("snapshotGatedBySwitch", snap_gate), ("snapshotSkipsIndexIds", snap_uuid), ("createdOnlyOnSyncMark", created)):
+        text += "def %s : Bool := %s\n" % (name, str(bool(val)).lower())
+    text += FOOTER
+    write("Filter.lean", text)
+
+
 def main():
     try:
+        gen_filter()
         gen_fix()
         gen_guards()
         gen_sync()
